@@ -417,7 +417,7 @@ def _ground(e):
     return m, np.nonzero(e <= m + tol)[0]
 
 
-MAXVARS_QUICK, MAXVARS_THOROUGH = 16, 20
+MAXVARS_QUICK, MAXVARS_THOROUGH = 16, 18
 
 
 def _judge(case, tier):
@@ -532,11 +532,11 @@ def _setcover_instances(ctx, heavy=True):
                 out.append({"U": U, "V": V, "weights": None, "vtype": "list"})
     # permuted order, tuple containers, weights, 4 subsets / 4 elements (sampled in quick, more in thorough)
     base = list(out)
-    for inst in rng.sample(base, ctx.pick(25, 120)):
+    for inst in rng.sample(base, min(len(base), ctx.pick(25, 120))):
         V = list(inst["V"])
         rng.shuffle(V)
         out.append(dict(inst, V=V, vtype=rng.choice(["list", "tuple"])))
-    for inst in rng.sample(base, ctx.pick(40, 150)):
+    for inst in rng.sample(base, min(len(base), ctx.pick(40, 150))):
         N = len(inst["V"])
         w = [rng.choice([1, 0.5, 0.25]) for _ in range(N)]
         w[rng.randrange(N)] = 1
@@ -577,7 +577,7 @@ def _vertexcover_instances(ctx):
                 yield {"cls": "VertexCover", "edges": [e[::-1] if rng.random() < 0.5 else e for e in es]}
     if ctx.thorough:
         gs = list(_graphs([0, 1, 2, 3, 4]))
-        for es in rng.sample(gs, 300):
+        for es in rng.sample(gs, min(len(gs), 300)):
             yield {"cls": "VertexCover", "edges": [e[::-1] if rng.random() < 0.5 else e for e in es]}
 
 
@@ -644,7 +644,7 @@ def _jobseq_instances(ctx, heavy=True):
             if _js_vars(L, m, lt) <= lim:
                 yield {"cls": "JobSequencing", "lengths": L, "ltype": "list", "workers": m, "log_trick": lt}
     names = ["job1", "job2", "j3", "z"]
-    for L, m in rng.sample(insts, ctx.pick(12, 40)):
+    for L, m in rng.sample(insts, min(len(insts), ctx.pick(12, 40))):
         for lt in (True, False):
             if _js_vars(L, m, lt) <= lim:
                 yield {"cls": "JobSequencing", "lengths": dict(zip(names, L)) if len(L) <= 4 else L,
@@ -715,7 +715,7 @@ def _numpart_instances(ctx, only_feasible=True):
 def _asc_instances(ctx):
     for n in range(1, ctx.pick(7, 11)):
         for cl in (2, 3, 4):
-            for mn, mx in ((1, 10), (1, 5), (2, 3), (3, 3), (5, 1), (0.5, 2)):
+            for mn, mx in ((1, 10), (1, 5), (2, 3), (3, 3), (5, 1), (2, 7)):
                 for pbc in (False, True):
                     if pbc and n < 3:
                         continue            # a ring needs three sites; (N-1, 0) would repeat bond (0, 1)
@@ -870,6 +870,10 @@ def check_tier2_b(case):
 def _cheap_instances(ctx):
     for inst in _setcover_instances(ctx, heavy=False):
         yield inst
+    # partly uncoverable set systems have no feasible solution: is_solution_valid must reject everything
+    for U, V in (([0, 1], [[0]]), ([0, 1, 2], [[0], [0, 1]]), (["a", "b"], [["b"], []])):
+        for lt in (True, False):
+            yield {"cls": "SetCover", "U": U, "V": V, "weights": None, "vtype": "list", "log_trick": lt}
     for inst in _vertexcover_instances(ctx):
         yield inst
     rng = ctx.rng("c10-cheap")
@@ -944,13 +948,17 @@ def check_valid_exact(case):
     return None
 
 
-@clause("C10.decode_forms", "C10", gen=_gen_cheap, nontrivial=lambda c: True if c else False)
+def _nontrivial_decode(case):
+    return _adapter(case["inst"]).optimum()[2] >= 4
+
+
+@clause("C10.decode_forms", "C10", gen=_gen_cheap, nontrivial=_nontrivial_decode)
 def check_decode_forms(case):
     """convert_solution decodes an assignment of the labels 0..num_binary_variables-1 to the same well-formed
     solution whether it is given as dict (in any insertion order), list or tuple, and whether it is given in boolean form (spin=False) or as
     the corresponding spin assignment z = 1 - 2x (spin=True); when the assignment is unambiguous (contains a 0,
     resp. a -1) the `spin` flag is documented to be ignored. Partitions compare as unordered pairs. Non-trivial:
-    every instance (all assignments are exercised)."""
+    the problem has at least four candidate solutions (all assignments, or 202 seeded ones, are exercised)."""
     q = qv()
     ad = _adapter(case["inst"])
     p = ad.build(q)
